@@ -1,0 +1,15 @@
+//go:build verif
+
+package stage
+
+import "github.com/lindb/lindb/flow"
+
+// VerifDataLoadContext returns the DataLoadContext a grouping stage was created with
+// (read-only; property C12: what shardScanStage.NextStages hands to each per-container stage).
+func VerifDataLoadContext(s Stage) (*flow.DataLoadContext, bool) {
+	g, ok := s.(*groupingStage)
+	if !ok {
+		return nil, false
+	}
+	return g.executeCtx, true
+}
